@@ -1,6 +1,11 @@
 """C04 -- geometry -> TOUGH2 grid conversion is geometrically exact and index-consistent.
 
-tie: H.  coq/C04/FromGeo.v is a hand transcription of the two name-list loops of mulgrids.py
+tie: H + T.  T: tools/props/c04_translate.py regenerates the arithmetic / comparison kernels (block_surface,
+block_volume, block_centre, connection_params, line_projection, the loop bodies of add_vertical_/
+add_horizontal_layer_connections, add_atmosphereblocks, add_underground_blocks, the name loops of
+setup_block_connection_name_index, the layer-column filters) from the AST of the current source as expression
+trees (Gen/GenKernels.v); coq/C04/KernelTie.v proves that they evaluate to what the hand model computes.
+H: coq/C04/FromGeo.v is a hand transcription of the two name-list loops of mulgrids.py
 (790-865) and of t2grid.fromgeo (t2grids.py 341-434) with the mulgrid helpers they call, over an
 abstract geometry with exact rational numbers.  The extracted model is run on the abstract
 geometry read off real mulgrid objects and compared with t2grid().fromgeo(geo[, blockmap]);
@@ -97,6 +102,8 @@ def note_distribution(st, recipe, geo, bm):
     if all(id(con.column[0]) in colset and id(con.column[1]) in colset for con in geo.connectionlist):
         h['connection columns are columns of the geometry'] += 1
     if geo.atmosphere_type in (0, 1, 2): h['atmosphere_type in 0..2'] += 1
+    pairs = [(con.column[0].name, con.column[1].name) for con in geo.connectionlist]
+    if len(set(pairs)) == len(pairs): h['hpairs_distinct (ordered column pairs of the connections differ)'] += 1
     if not (geo.gdcx or geo.gdcy): h['untilted (hypothesis of the dircos theorems only)'] += 1
 
 
@@ -256,6 +263,24 @@ def sweep(ctx, exe, st, n_small, shipped, variants, per=60):
     pool.shutdown()
 
 
+def translate(ctx):
+    """Tie T: regenerate the arithmetic kernels from the current source as expression trees."""
+    import c04_translate as T
+    try:
+        src = {f: open(os.path.join(ctx.repo, f)).read() for f in ('mulgrids.py', 't2grids.py', 'geometry.py')}
+        import warnings
+        with warnings.catch_warnings():
+            warnings.simplefilter('ignore')
+            text = T.translate(src)
+    except T.Refusal as e:
+        ctx.refusal('c04_translate', e); return False
+    except (SyntaxError, OSError, KeyError) as e:
+        ctx.refusal('c04_translate', repr(e)); return False
+    ctx.gen('GenKernels', text)
+    ctx.extra['translated_kernels'] = text.count('Definition gen_')
+    return True
+
+
 def run(ctx):
     ctx.rule = ('geometries are built through the public mulgrid API from a recorded recipe: rectangular (1..6 x 1..6 x 1..6 blocks quick, up to 9 x 9 x 8 thorough; '
                 'uniform/random/geometric spacings, origins up to 1e5, 4 conventions, l/r justification, case, alphabetic character sets, 2-D slices), '
@@ -264,6 +289,7 @@ def run(ctx):
                 'atmosphere volume/connection, layer centres off the mid-point, explicit column surfaces (default; on a layer boundary; above the top layer; thin slivers; inside the bottom layer; sloping), '
                 'no block map / empty / partial / total block map.  A case is distinct by its recipe and non-trivial when the grid has rock blocks.')
     ctx.trusted += ['Coq 8.16.1 kernel (coqc); vm_compute only on closed terms inside Example proofs; no native_compute; Props.v is axiom-free, PropsR.v (the same connection statements read in R with sqrt) uses the stdlib axioms of the classical reals',
+                    'tools/props/c04_translate.py (AST -> expression trees; atoms are pinned source text of look-ups) and the evaluator coq/C04/Kx.v with the environments of coq/C04/KernelTie.v (which model quantity each source look-up denotes)',
                     'coq/C04/FromGeo.v: hand transcription of mulgrids.py 790-881, 1381-1455, geometry.line_projection and t2grids.py 282-318, 341-434 (validated on every run by the correspondence, not derived from the source)',
                     'exact rational arithmetic stands for IEEE double arithmetic (difference measured per run: all compared quantities agree to 1e-9 relative + 2e-13 of the cancellation scale)',
                     'extraction: ExtrOcamlBasic + ExtrOcamlString, OCaml 4.13.1, ocaml/main.ml; Base/Wire.v unhex/z_of_str',
@@ -272,9 +298,12 @@ def run(ctx):
                         'the name lists of the geometry are current (setup_block_name_index / setup_block_connection_name_index called after surfaces change, as the library and its tests do)',
                         'layer objects are identified by their unique names (layerlist.index); connection columns are members of columnlist',
                         'the atmosphere layer has zero thickness and layers are contiguous (identify_layer_tops), every column surface lies above the bottom of the last layer',
+                        'tie T: a column connection joins exactly two columns along an edge with two nodes (comprehensions over con.column / con.node are expanded to two elements); numpy division does not raise (the ZeroDivisionError handler of line_projection is dead); con is a member of connectionlist',
+                        'no two column connections join the same ordered pair of columns (hypothesis hpairs_distinct of fromgeo_conns_eq_name_list_derived; measured)',
                         'square roots are outside the model: distances, areas and cosines that involve a norm are carried as coef*sqrt(rad) with rational coef, rad']
     ctx.stage()
-    ok = ctx.coq_build(props=('Props.v', 'PropsR.v'), timeout=1200)
+    translate(ctx)                   # tie T: Gen/GenKernels.v from the current source (a refusal is recorded; the build then fails closed)
+    ok = ctx.coq_build(props=('Props.v', 'PropsT.v', 'PropsR.v'), timeout=1200)
     exe = vf.build_driver(ctx)
     st = Stats()
     seedpick = ['g5', 'g6', 'g1', 'g3'][ctx.seed % 4]
